@@ -181,3 +181,24 @@ func SortedSchemas(leaves []LeafDef) []string {
 func (l LeafDef) Describe() string {
 	return fmt.Sprintf("%s:%v/%d key=%v", l.Schema, l.Type, l.Width, l.IsKey)
 }
+
+// RemoveKeys strips every [k=v] group from path text.
+func RemoveKeys(s string) string {
+	var b strings.Builder
+	depth := 0
+	for i := 0; i < len(s); i++ {
+		switch s[i] {
+		case '[':
+			depth++
+		case ']':
+			if depth > 0 {
+				depth--
+			}
+		default:
+			if depth == 0 {
+				b.WriteByte(s[i])
+			}
+		}
+	}
+	return b.String()
+}
